@@ -1,6 +1,7 @@
 (* C12: the common type chosen by Ty::max accepts both operands, for ALL types outside the
    exact classes of [known_max] (Spec/TyLaws.v). *)
-From Capy Require Import Common.Util Common.Ty Model.TyRel Model.ExpectMatch Spec.TyLaws Proofs.TyRelBasics.
+From Capy Require Import Common.Util Common.Ty.
+From Capy Require Import Model.TyRel Model.ExpectMatch Spec.TyLaws Proofs.TyRelBasics.
 Local Arguments ty_eqb : simpl never.
 Local Arguments N.eqb : simpl never.
 Local Arguments N.leb : simpl never.
@@ -8,14 +9,28 @@ Local Arguments N.ltb : simpl never.
 Local Arguments N.max : simpl never.
 Local Arguments N.mul : simpl never.
 
+Section WithFixes.
+Variable fx : fixes.
+Notation fit := (TyRel.fit fx).
+Notation weak := (TyRel.weak fx).
+Notation feq := (TyRel.feq fx).
+Notation cast := (TyRel.cast fx).
+Notation has_semantics_of := (TyRel.has_semantics_of fx).
+Notation tmax := (TyRel.tmax fx).
+Notation accepts := (TyLaws.accepts fx).
+Notation known_weak_fit := (TyLaws.known_weak_fit fx).
+Notation known_max := (TyLaws.known_max fx).
+Notation max_accepts := (TyLaws.max_accepts fx).
+Notation ntarget := (TyLaws.ntarget fx).
+
 Lemma tmax_eq m a b : ty_eqb a b = true -> tmax m a b = Ok (Some a).
-Proof. intros E. destruct a; cbn [tmax]; rewrite E; reflexivity. Qed.
+Proof. intros E. destruct a; cbn [TyRel.tmax]; rewrite E; reflexivity. Qed.
 
 Lemma fit_into_optional x s :
   (match x with Optional _ => false | _ => true end) = true ->
   fit x s = true -> fit x (Optional s) = true.
 Proof.
-  intros Hx Hs. destruct x; try discriminate Hx; cbn [fit];
+  intros Hx Hs. destruct x; try discriminate Hx; cbn [TyRel.fit];
     (destruct (ty_eqb _ _); [reflexivity|]); first [ reflexivity | exact Hs ].
 Qed.
 
@@ -23,46 +38,46 @@ Lemma fit_into_eu x e p :
   (match x with ErrorUnion _ _ => false | _ => true end) = true ->
   fit x e || fit x p = true -> fit x (ErrorUnion e p) = true.
 Proof.
-  intros Hx Hs. destruct x; try discriminate Hx; cbn [fit];
+  intros Hx Hs. destruct x; try discriminate Hx; cbn [TyRel.fit];
     (destruct (ty_eqb _ _); [reflexivity|]); first [ reflexivity | exact Hs ].
 Qed.
 
 Lemma fit_optional_optional l t : fit l t = true -> fit (Optional l) (Optional t) = true.
-Proof. intros H. cbn [fit]. destruct (ty_eqb _ _); [reflexivity|exact H]. Qed.
+Proof. intros H. cbn [TyRel.fit]. destruct (ty_eqb _ _); [reflexivity|exact H]. Qed.
 
 Lemma fit_eu_eu a b c d : fit a c = true -> fit b d = true -> fit (ErrorUnion a b) (ErrorUnion c d) = true.
-Proof. intros H1 H2. cbn [fit]. destruct (ty_eqb _ _); [reflexivity|]. rewrite H1, H2. reflexivity. Qed.
+Proof. intros H1 H2. cbn [TyRel.fit]. destruct (ty_eqb _ _); [reflexivity|]. rewrite H1, H2. reflexivity. Qed.
 
 Lemma fit_unknown_l x : fit Unknown x = true.
-Proof. destruct x; cbn [fit]; destruct (ty_eqb _ _); reflexivity. Qed.
+Proof. destruct x; cbn [TyRel.fit]; destruct (ty_eqb _ _); reflexivity. Qed.
 Lemma fit_aj_l x : fit AlwaysJumps x = true.
-Proof. destruct x; cbn [fit]; destruct (ty_eqb _ _); reflexivity. Qed.
+Proof. destruct x; cbn [TyRel.fit]; destruct (ty_eqb _ _); reflexivity. Qed.
 Lemma fit_nil_optional s : fit Nil (Optional s) = true.
 Proof. reflexivity. Qed.
 
 
 Lemma fit_ii w1 w2 : (N.eqb w2 0 || N.leb w1 w2) = true -> fit (IInt w1) (IInt w2) = true.
-Proof. intros H. cbn [fit]. destruct (ty_eqb _ _); [reflexivity|exact H]. Qed.
+Proof. intros H. cbn [TyRel.fit]. destruct (ty_eqb _ _); [reflexivity|exact H]. Qed.
 Lemma fit_uu w1 w2 : (N.eqb w2 0 || N.leb w1 w2) = true -> fit (UInt w1) (UInt w2) = true.
-Proof. intros H. cbn [fit]. destruct (ty_eqb _ _); [reflexivity|exact H]. Qed.
+Proof. intros H. cbn [TyRel.fit]. destruct (ty_eqb _ _); [reflexivity|exact H]. Qed.
 Lemma fit_ff w1 w2 : (N.eqb w2 0 || N.leb w1 w2) = true -> fit (TFloat w1) (TFloat w2) = true.
-Proof. intros H. cbn [fit]. destruct (ty_eqb _ _); [reflexivity|exact H]. Qed.
+Proof. intros H. cbn [TyRel.fit]. destruct (ty_eqb _ _); [reflexivity|exact H]. Qed.
 Lemma fit_ui f x : (N.eqb x 0 || N.ltb f x) = true -> fit (UInt f) (IInt x) = true.
-Proof. intros H. cbn [fit]. destruct (ty_eqb _ _); [reflexivity|exact H]. Qed.
+Proof. intros H. cbn [TyRel.fit]. destruct (ty_eqb _ _); [reflexivity|exact H]. Qed.
 Lemma fit_if f x : (N.eqb f 0 || N.ltb f x) = true -> fit (IInt f) (TFloat x) = true.
-Proof. intros H. cbn [fit]. destruct (ty_eqb _ _); [reflexivity|exact H]. Qed.
+Proof. intros H. cbn [TyRel.fit]. destruct (ty_eqb _ _); [reflexivity|exact H]. Qed.
 Lemma fit_uf f x : (N.eqb f 0 || N.ltb f x) = true -> fit (UInt f) (TFloat x) = true.
-Proof. intros H. cbn [fit]. destruct (ty_eqb _ _); [reflexivity|exact H]. Qed.
+Proof. intros H. cbn [TyRel.fit]. destruct (ty_eqb _ _); [reflexivity|exact H]. Qed.
 Lemma fit_variant_enum eu n u s d eu' vs : N.eqb eu eu' = true ->
   fit (Variant eu n u s d) (Enum eu' vs) = true.
-Proof. intros H. cbn [fit]. destruct (ty_eqb _ _); [reflexivity|exact H]. Qed.
+Proof. intros H. cbn [TyRel.fit]. destruct (ty_eqb _ _); [reflexivity|exact H]. Qed.
 
-Local Arguments fit : simpl never.
-Local Arguments has_semantics_of : simpl never.
+Local Arguments TyRel.fit : simpl never.
+Local Arguments TyRel.has_semantics_of : simpl never.
 Local Arguments is_zero_sized : simpl never.
 
 Lemma max_accepts_of_fit depth a b c : fit a c = true -> fit b c = true -> max_accepts depth a b c = true.
-Proof. intros H1 H2. unfold max_accepts, accepts. rewrite H1, H2. destruct depth; reflexivity. Qed.
+Proof. intros H1 H2. unfold TyLaws.max_accepts, TyLaws.accepts. rewrite H1, H2. destruct depth; reflexivity. Qed.
 
 Ltac arith :=
   repeat match goal with
@@ -92,7 +107,7 @@ Proof.
     (match type of Hm with tmax _ ?A _ = _ => destruct (ty_eqb A b) eqn:E end;
      [ rewrite (tmax_eq _ _ _ E) in Hm; injection Hm as <-; apply ty_eqb_eq in E; subst b;
        apply max_accepts_of_fit; apply fit_refl | ]);
-    destruct b; cbn [tmax] in Hm; rewrite E in Hm; cbn -[tmax] in Hm; try discriminate Hm.
+    destruct b; cbn [TyRel.tmax] in Hm; rewrite E in Hm; cbn -[TyRel.tmax] in Hm; try discriminate Hm.
   all: repeat (try discriminate Hm;
      match type of Hm with
      | context [if ?c then _ else _] => destruct c eqn:?
@@ -101,22 +116,27 @@ Proof.
      | context [match get_enum ?m ?e with Some _ => _ | None => _ end] => destruct (get_enum m e) eqn:?
      | context [match tmax ?m ?x ?y with Ok _ => _ | Crash _ => _ | OutOfFuel => _ end] =>
          destruct (tmax m x y) as [[?|]| |] eqn:?
-     end; cbn -[tmax] in Hm).
+     end; cbn -[TyRel.tmax] in Hm).
   all: try discriminate Hm.
   all: injection Hm as <-.
-  all: cbn [known_max] in Hk; rewrite E in Hk; cbn -[known_max] in Hk.
+  all: cbn [TyLaws.known_max] in Hk; rewrite E in Hk; unfold known_max_distinct in Hk;
+       repeat match goal with H : fx_max_distinct fx = _ |- _ => rewrite H in Hk end;
+       cbn -[TyLaws.known_max] in Hk.
+  all: repeat match goal with H : (fit _ _ && _) = true |- _ => apply andb_true_iff in H; destruct H
+                               | H : (has_semantics_of _ _ && _) = true |- _ => apply andb_true_iff in H; destruct H end.
   all: try solve [apply max_accepts_of_fit; fits].
   (* distinct arms: the class hypothesis gives the missing direction *)
   all: try solve [
+    repeat match goal with H : fx_max_distinct fx = _ |- _ => rewrite H in Hk end;
     repeat match goal with H : has_semantics_of _ _ = true |- _ => rewrite H in Hk end;
-    cbn [andb] in Hk;
+    cbn [negb andb] in Hk;
     match type of Hk with context [fit ?x ?d] => destruct (fit x d) eqn:?F end;
     [ apply max_accepts_of_fit; fits | discriminate Hk ] ].
   (* zero-sized and `type` *)
   all: try solve [
     match goal with H : is_zero_sized _ = true |- _ =>
       rewrite H in Hk; destruct depth; [discriminate Hk|];
-      unfold max_accepts, accepts; rewrite H, ?fit_refl, ?orb_true_r; reflexivity end ].
+      unfold TyLaws.max_accepts, TyLaws.accepts; rewrite H, ?fit_refl, ?orb_true_r; reflexivity end ].
   - (* two variants of the same enum: the registered enum *)
     match goal with H : get_enum m _ = Some _ |- _ => destruct (Hwf _ _ H) as [vs ->] end.
     apply max_accepts_of_fit; apply fit_variant_enum;
@@ -125,16 +145,21 @@ Proof.
     match goal with H : (_ && _) = true |- _ => apply andb_true_iff in H; destruct H as [Hz1 Hz2] end.
     match goal with H : N.eqb _ _ = false |- _ => rewrite H in Hk end.
     rewrite Hz1, Hz2 in Hk. destruct depth; [discriminate Hk|].
-    unfold max_accepts, accepts. rewrite Hz1, Hz2, !orb_true_r. reflexivity.
+    unfold TyLaws.max_accepts, TyLaws.accepts. rewrite Hz1, Hz2, !orb_true_r. reflexivity.
   - (* Optional / Optional *)
     match goal with H : tmax m a b = Ok (Some _) |- _ => pose proof (IHa true _ _ Hk H) as IH end.
-    unfold max_accepts in IH. apply andb_true_iff in IH as [I1 I2].
+    unfold TyLaws.max_accepts in IH. apply andb_true_iff in IH as [I1 I2].
     apply max_accepts_of_fit; apply fit_optional_optional; assumption.
   - (* ErrorUnion / ErrorUnion *)
     destruct (known_max true a1 b1) eqn:K1; [|discriminate Hk].
     match goal with H1 : tmax m a1 b1 = Ok (Some _), H2 : tmax m a2 b2 = Ok (Some _) |- _ =>
       pose proof (IHa1 true _ _ K1 H1) as IH1; pose proof (IHa2 true _ _ Hk H2) as IH2 end.
-    unfold max_accepts in IH1, IH2.
+    unfold TyLaws.max_accepts in IH1, IH2.
     apply andb_true_iff in IH1 as [I1 I2]. apply andb_true_iff in IH2 as [J1 J2].
     apply max_accepts_of_fit; apply fit_eu_eu; assumption.
 Qed.
+(* with the C12-2 fix in force class 1 of [known_max] is empty *)
+Lemma known_max_distinct_fixed : fx_max_distinct fx = true -> forall a b, known_max_distinct fx a b = false.
+Proof. intros Fx a b. unfold known_max_distinct. rewrite Fx. destruct a; destruct b; reflexivity. Qed.
+
+End WithFixes.
